@@ -158,3 +158,7 @@ def s_list_ops(xs, v):
     ys.append(v)
     zs = ys + [v]
     return ys, zs[1:], len(zs), zs[-1], [y for y in ys if y != v], ys.index(v) if v in ys else -1
+
+
+def s_divide_where(x, y):
+    return np.divide(x, y, out=np.zeros_like(x), where=y > 0), np.divide(1, y, out=np.zeros_like(y), where=y != 0), np.multiply(x, y), np.add(x, 1)
